@@ -168,6 +168,37 @@ pub fn run_case(c: &Case, r: &mut Report) {
     } else {
         r.count(&format!("{} no-constant-byte", tag));
     }
+    // a builder that has been used thousands of times must still produce tokens that are bound as configured:
+    // sample 64 tokens spread over the history (and the last one) and open them
+    if c.threads == 1 {
+        let ia = if c.p.has_assertion() { Some("ia") } else { None };
+        let step = (n / 64).max(1);
+        let mut bad = 0usize;
+        let mut first_bad = String::new();
+        for i in (0..n).step_by(step).chain(std::iter::once(n - 1)) {
+            let o = open_at(c.layer, c.p, &key, &tokens[i], Some("ftr"), ia).0;
+            let ok = match &o {
+                Out::Ok(s) => s.contains("identical payload"),
+                _ => false,
+            };
+            if !ok {
+                bad += 1;
+                if first_bad.is_empty() {
+                    first_bad = format!("token #{}: {}", i + 1, o.brief());
+                }
+            }
+        }
+        r.evaluations += 65;
+        if bad > 0 {
+            r.violation(
+                format!("C10 late-token-not-bound-as-configured {}", tag),
+                format!("{}: {} of 65 sampled tokens of a {}-build history do not open with the configured footer/assertion/payload (first: {})", tag, bad, n, first_bad),
+                replay.clone(),
+            );
+        } else {
+            r.count(&format!("{} sampled tokens of the history open as configured", tag));
+        }
+    }
     r.distinct(format!("{}|n={}|threads={}", tag, n, c.threads));
     r.see("max-bit-deviation-in-sigmas", &format!("{} {:.2} (bound 10.6)", tag, worst / ((n as f64).sqrt() / 2.0)));
     r.see("min-distinct-values-per-byte-position", &format!("{} {}", tag, min_distinct));
